@@ -82,4 +82,28 @@ chk("C07", "gbv/lifecycle",
     "driver NoticeDump/Exec encode what they are given.",
     "DESIGN.md 5/C07")
 
+chk("C08", "gbv/ownership",
+    "may-alias root analysis (H-alias) with explicit standard-library model and in-package summaries; escape check of the transport buffer; allocation-site/loop check of delivered containers",
+    "Decides the aliasing structure: the transport's reused buffer flows only into len / element reads / the source side of copy and append / HandleErrorPacket and each event is built on a "
+    "per-packet allocation; every success return of CellBytes may alias only the event's own buffer or memory allocated in the call (never package-level storage, unknown producers fail closed); "
+    "delivered containers are fresh allocations produced in the loop iteration that appends them. It does not decide what a handler does through cap() of a delivered slice.",
+    "the alias model of bytes.Buffer/append/strconv/copy in ownership.go; driver returns a window of a reused buffer; strings immutable.",
+    "DESIGN.md 5/C08")
+
+chk("C18", "gbv/ownership",
+    "taint fixpoint over SSA for receiver-derived memory + write-instruction check with in-package callee summaries",
+    "Decides only the immutability clause and two structural preconditions of canonical form: no method of Mysql56GTIDSet (or in-package callee) writes storage reachable from its receiver; AddGTID's "
+    "result map and the interval lists stored into it are allocated in the method; the parser sorts interval lists before storing them and SIDs() sorts its result. Set-algebra agreement "
+    "(Contains/Equal/merge correctness) is a statement about values and is not decided.",
+    "list of standard-library functions that write through arguments (ownership.go); other stdlib callees do not.",
+    "DESIGN.md 5/C18")
+
+chk("C19", "gbv/dispatch+ownership+wirefmt",
+    "registry/implementer cross-check on go/types; write-through taint (as C18); transfer-token comparison of the SID-block writer and reader; separator and field-order agreement between String() and parsers",
+    "Decides: every GTID/GTIDSet implementation's constant flavor has a registered parser returning that type; GTIDs are comparable value types; MariadbGTIDSet methods never write the receiver's "
+    "storage; SIDBlock and its reader perform the same nested fixed-width little-endian transfers with matching end bias and PREVIOUS_GTIDS feeds the event body to the reader; printing and parsing "
+    "agree on separators and field order. The round trips themselves are not decided.",
+    "encoding/binary transfers the size of the static type.",
+    "DESIGN.md 5/C19")
+
 ENGINES[0]["serves_properties"] = sorted(CHECKS.keys())
